@@ -13,7 +13,7 @@ T == Traces[tid].events
 E == T[l]
 TInit == /\ tid \in 1..Len(Traces) /\ l = 1 /\ conf = Traces[tid].conf
          /\ now = Traces[tid].t0 /\ pc = "init" /\ wake = 0 /\ att = 0 /\ since = 0 /\ conn = 0 /\ opened = 0 /\ act = 0
-         /\ pend = <<>> /\ old = {} /\ mustclose = {} /\ blockers = {Traces[tid].paused0[i] : i \in DOMAIN Traces[tid].paused0} /\ pausedAt = 0
+         /\ pend = <<>> /\ old = {} /\ mustclose = {} /\ blockers = {Traces[tid].paused0[i] : i \in DOMAIN Traces[tid].paused0} /\ fresh = FALSE
          /\ noticed = FALSE /\ relisted = FALSE
 Ev(e) == l <= Len(T) /\ E.ev = e /\ E.t = now /\ l' = l + 1 /\ UNCHANGED tid
 TSpawn == Ev("spawn") /\ Spawn
